@@ -412,6 +412,10 @@ def r9_failures_return_false(ctx):
             fails.append((n, neg, 'anchored %s %s' % ('prefix' if e.func.attr == 'startswith' else 'suffix', ctx.src(e)), e))
         elif isinstance(e, ast.Compare) and len(e.ops) == 1 and isinstance(e.left, ast.Name) and isinstance(e.comparators[0], ast.Constant) and e.comparators[0].value in (0, -1):
             defs = rd.at(n, e.left.id)
+            for _ in range(3):
+                # the found position under a plain copy of its name
+                if defs and all(d.kind == 'assign' and isinstance(d.value, ast.Name) for d in defs):
+                    defs = [d2 for d in defs for d2 in rd.at(d.node, d.value.id)]
             if any(isinstance(d.value, ast.Call) and isinstance(d.value.func, ast.Attribute) and d.value.func.attr in ('find', 'rfind') for d in defs):
                 op, c0 = type(e.ops[0]), e.comparators[0].value
                 failing = {(ast.Lt, 0): True, (ast.Eq, -1): True, (ast.GtE, 0): False, (ast.NotEq, -1): False, (ast.LtE, -1): True, (ast.Gt, -1): False}.get((op, c0))
